@@ -22,7 +22,80 @@ from ..llsym.ccall import ccall, STATS
 PROP_ID = "C06"
 sym_mods = common.sym_mods
 real_mods = common.real_mods
-replay = common.generic_replay
+
+
+def c_generator_cache(cfg):
+    """NLDFNumInt / NLDFNLOFNumInt.initialize_feature_generators (ciderpress/pyscf/numint.py) reuses its feature generators between
+    calls; after a call with a rigidly moved or relabelled copy of the previous molecule (same grids object, as after
+    grids.reset(mol2); grids.build()) the generators in use must be the ones built for the *new* molecule.  Everything here is
+    concrete (PySCF Mole objects, recording stand-ins for the two initialisers), so this is a fact check on the real control flow,
+    not a solver query."""
+    import types
+    from pyscf import gto
+    m = common.real_mods("numint")
+    ni_mod, st = m.numint, m.settings
+    recs = []
+
+    def rec(name, ok, detail=""):
+        recs.append(dict(kind="fact", name="%s/%s" % (cfg["task"], name), path="", verdict="unsat" if ok else "sat", t=0.0, size=1, trivial=False,
+                         phase="executed", detail=str(detail), model={}, model_float={}))
+
+    class Gen(object):
+        def __init__(self, mol, nspin):
+            self.built_for, self.plan = mol, types.SimpleNamespace(nspin=nspin)
+            self.coords_set = None
+            self.interpolator = types.SimpleNamespace(set_coords=lambda c: setattr(self, "coords_set", c))
+
+    class Init(object):
+        def initialize_nldf_generator(self, mol, grids_indexer, nspin):
+            return Gen(mol, nspin)
+
+        def initialize_sdmx_generator(self, mol, nspin):
+            return Gen(mol, nspin)
+    base = [("O", (0.0, 0.0, 0.117)), ("H", (0.0, 0.757, -0.469)), ("H", (0.0, -0.757, -0.469))]
+    move = {"translated": lambda a: [(s, (x + 0.7, y - 1.3, z + 0.4)) for s, (x, y, z) in a],
+            "rotated_90_about_z": lambda a: [(s, (-y, x, z)) for s, (x, y, z) in a],
+            "rotated_120_about_111": lambda a: [(s, (z, x, y)) for s, (x, y, z) in a],
+            "mirrored_x": lambda a: [(s, (-x, y, z)) for s, (x, y, z) in a],
+            "relabelled_H_O_H": lambda a: [a[1], a[0], a[2]]}
+    fs = st.FeatureSettings(sl_settings=st.SemilocalSettings("npa"), sdmx_settings=st.SDMXSettings([1]))
+    for clsname in ("NLDFNumInt", "NLDFNLOFNumInt"):
+        cls = getattr(ni_mod, clsname)
+        for how, f in move.items():
+            mol1 = gto.M(atom=base, basis="sto-3g", verbose=0)
+            mol2 = gto.M(atom=f(base), basis="sto-3g", verbose=0)
+            ni = object.__new__(cls)
+            ni.mlxc = types.SimpleNamespace(settings=fs)
+            try:
+                ni.settings = fs          # classes where `settings` is a plain attribute rather than the mlxc property
+            except AttributeError:
+                pass
+            ni.mol, ni.sdmxgen, ni.nldfgen, ni.nldf_init, ni.sdmx_init = None, None, None, Init(), Init()
+            grids = types.SimpleNamespace(grids_indexer=object(), coords=np.zeros((1, 3)))
+            try:
+                ni.initialize_feature_generators(mol1, grids, 1)
+                first = ni.nldfgen
+                grids.coords = np.ones((1, 3))           # the caller rebuilt the grid for the second molecule in place
+                ni.initialize_feature_generators(mol2, grids, 1)
+            except Exception as e:  # noqa
+                rec("%s/%s/returns" % (clsname, how), False, "%s: %s" % (type(e).__name__, e))
+                continue
+            rec("%s/%s/nldf_generator_is_for_the_current_molecule" % (clsname, how), ni.nldfgen.built_for is mol2, "built for the %s molecule" % ("first" if ni.nldfgen is first else "second"))
+            rec("%s/%s/sdmx_generator_is_for_the_current_molecule" % (clsname, how), ni.sdmxgen is not None and ni.sdmxgen.built_for is mol2)
+            if clsname == "NLDFNumInt":
+                rec("%s/%s/interpolator_has_the_current_grid" % (clsname, how), ni.nldfgen.coords_set is grids.coords)
+    recs.append(dict(kind="reach", name=cfg["task"] + "/reach", path="", verdict="sat", t=0.0))
+    return dict(records=recs, paths=0, solver_time=0.0)
+
+
+def replay(task, rec):
+    if task.engine == "custom":
+        out = c_generator_cache(task.cfg)
+        for r in out["records"]:
+            if r["name"] == rec["name"]:
+                return dict(confirmed=r["verdict"] == "sat", detail="re-executed on the unmodified module: %s" % r.get("detail"))
+        return dict(confirmed=False, detail="not produced")
+    return common.generic_replay(task, rec)
 
 SPH_C = "ciderpress/lib/mod_cider/sph_harm.c"
 TOL = Fraction(1, 10 ** 12)
@@ -292,6 +365,7 @@ def tasks(tier):
         relab += [(("H", "He", "Li", "H"), p, {"H": (2, 1, 2), "He": (1,), "Li": (3, 3)}) for p in itertools.permutations(range(4))]
     for atoms, perm, shells in relab:
         out.append(Task("relabel_indexer/%s/%s" % ("".join(atoms), "".join(map(str, perm))), h_relabel_indexer, dict(atoms=atoms, perm=perm, shells=shells), mods="grids"))
+    out.append(Task("generator_cache", c_generator_cache, dict(task="generator_cache"), engine="custom"))
     if tier == "thorough":
         out.append(Task("shell_norm/lmax3", h_shell_norm, dict(lmax=3)))
         out.append(Task("deriv/lmax3", h_deriv, dict(lmax=3)))
@@ -313,7 +387,7 @@ def extra_evidence(results):
 META = dict(
     explanation="clang LLVM IR of sph_harm.c executed on a symbolic unit vector; z3 decides polynomial identities on the sphere (exact where both sides use "
                 "the same constants, within 1e-12 where the C source's decimal constants meet pi); plan-level l=1 contraction under a symbolic orthogonal matrix",
-    functions=["ciderpress/lib/mod_cider/sph_harm.c: setup_sph_harm_buffer, recursive_sph_harm, recursive_sph_harm_deriv, remove_radial_grad, recursive_sph_harm(_deriv)_vec",
+    functions=['ciderpress/pyscf/numint.py: CiderNumIntMixin / NLDFNumInt / NLDFNLOFNumInt.initialize_feature_generators (generator_cache: concrete fact task, no solver query)', "ciderpress/lib/mod_cider/sph_harm.c: setup_sph_harm_buffer, recursive_sph_harm, recursive_sph_harm_deriv, remove_radial_grad, recursive_sph_harm(_deriv)_vec",
                "ciderpress/dft/plans.py: NLDFAuxiliaryPlan.eval_rho_full/eval_rho_vi_", "ciderpress/dft/grids_indexer.py: AtomicGridsIndexer.from_tabs/__init__"],
     bounds=dict(lmax="2 (3 thorough)", points=1, octahedral_operations="8 of 48 (quick), all 48 (thorough)", tolerance="1e-12 for identities involving pi vs the source's double constants"),
     stubs=["complex arithmetic: clang's expanded real/imag form; creal/cimag/__muldc3 by definition; calloc'd buffers zero-initialised"],
